@@ -51,7 +51,17 @@ def rand_setting(rng, ac, seg_windows):
     return cs
 
 
-def seg_cases(MX, H, sc, name, cs, cases, descr, chk):
+
+def surface_spec(ac, seg):
+    """root/tip span, saturation [rad], mixing and symmetry of a segment's control surface, read from the aircraft INPUT dictionary
+    (not from the live object: a slip in how the code stores them must show)"""
+    w = ac["wings"][seg.name.rsplit("_", 1)[0]]
+    c = w["control_surface"]
+    mixing = dict(c.get("control_mixing", {}))
+    sym = {k: bool(ac["controls"][k].get("is_symmetric", True)) for k in mixing}
+    return float(c.get("root_span", 0.0)), float(c.get("tip_span", 1.0)), float(np.radians(c.get("saturation_angle", np.inf))), mixing, sym
+
+def seg_cases(MX, H, sc, name, cs, cases, descr, chk, ac):
     """one bit-exact case per segment of the aircraft for the current control setting"""
     a = sc._airplanes[name]
     for seg in a.segments:
@@ -59,32 +69,33 @@ def seg_cases(MX, H, sc, name, cs, cases, descr, chk):
             if np.any(seg._delta_flap != 0.0):
                 chk.violation("no-surface-but-deflected", dict(kind="controls", segment=seg.name))
             continue
+        root, tip, sat, mixing, sym = surface_spec(ac, seg)
         mx = []
-        for key in seg._control_mixing:
+        for key in mixing:
             d = H.import_value(key, cs, a._unit_sys, 0.0)
-            mx.append("(%s, %s, %s)" % (cbool(a._control_symmetry[key]), fhex(seg._control_mixing.get(key, 0.0)), coq_input(d)))
-        sat = float(seg._saturation_angle)
-        cases.append("chk_delta %s %s %s %s %s [%s] %s %s" % (fhex(np.pi / 180.0), cbool(seg.side == "left"), fhex(seg._cntrl_root_span),
-                                                             fhex(seg._cntrl_tip_span), fhex(sat), "; ".join(mx), flist(seg.cp_span_locs),
+            mx.append("(%s, %s, %s)" % (cbool(sym[key]), fhex(float(mixing[key])), coq_input(d)))
+        cases.append("chk_delta %s %s %s %s %s [%s] %s %s" % (fhex(np.pi / 180.0), cbool(seg.side == "left"), fhex(root),
+                                                             fhex(tip), fhex(sat), "; ".join(mx), flist(seg.cp_span_locs),
                                                              flist(seg._delta_flap)))
         descr.append(dict(what="delta_flap", segment=seg.name, setting=cs))
         cf = seg._getter_data["flap_chord_fraction"]
-        cases.append("chk_cf %s %s %s %s %s" % (fhex(seg._cntrl_root_span), fhex(seg._cntrl_tip_span), coq_input(cf if isinstance(cf, np.ndarray) else float(cf)),
+        cases.append("chk_cf %s %s %s %s %s" % (fhex(root), fhex(tip), coq_input(cf if isinstance(cf, np.ndarray) else float(cf)),
                                                 flist(seg.cp_span_locs), flist(seg._cp_c_f)))
         descr.append(dict(what="flap_fraction", segment=seg.name))
         chk.count("side=" + seg.side)
-        chk.count("n_mixed=%d" % len(seg._control_mixing))
+        chk.count("n_mixed=%d" % len(mixing))
         chk.count("saturation=%s" % (sat < 1e9))
 
 
-def independent_delta(a, seg, cs, H):
+def independent_delta(a, seg, cs, H, ac):
     """the documented mapping, written independently"""
     out = np.zeros(seg.N)
+    root, tip, sat, mixing, sym = surface_spec(ac, seg)
     for i, s in enumerate(seg.cp_span_locs):
-        if not (seg._cntrl_root_span <= s <= seg._cntrl_tip_span):
+        if not (root <= s <= tip):
             continue
         tot = 0.0
-        for key, mix in seg._control_mixing.items():
+        for key, mix in mixing.items():
             v = cs.get(key, 0.0)
             if isinstance(v, list) and v and isinstance(v[0], list):
                 xs, ys = [r[0] for r in v], [r[1] for r in v]
@@ -93,9 +104,9 @@ def independent_delta(a, seg, cs, H):
                 u = math.degrees(v[0]) if v[1] == "rad" else float(v[0])
             else:
                 u = float(v)
-            sgn = -1.0 if (seg.side == "left" and not a._control_symmetry[key]) else 1.0
+            sgn = -1.0 if (seg.side == "left" and not sym[key]) else 1.0
             tot += sgn * mix * u
-        out[i] = max(-seg._saturation_angle, min(seg._saturation_angle, math.radians(tot)))
+        out[i] = max(-sat, min(sat, math.radians(tot)))
     return out
 
 
@@ -130,11 +141,11 @@ def run(chk):
             except Exception as e:
                 chk.violation("set-controls-raises", dict(kind="controls", aircraft=ac, setting=cs, error=repr(e)))
                 break
-            seg_cases(MX, H, sc, "a", cs, cases, descr, chk)
+            seg_cases(MX, H, sc, "a", cs, cases, descr, chk, ac)
             # independent statement of the mapping + replacement semantics on the implementation
             for seg in a.segments:
                 if seg._has_control_surface:
-                    exp = independent_delta(a, seg, cs, H)
+                    exp = independent_delta(a, seg, cs, H, ac)
                     if not np.allclose(seg._delta_flap, exp, rtol=1e-6, atol=1e-9):
                         chk.violation("mapping:%s" % seg.side, dict(kind="controls", aircraft=ac, setting=cs, segment=seg.name, got=seg._delta_flap, expected=exp))
             for c in a.control_names:
